@@ -90,6 +90,10 @@ fn templates() -> Vec<Tpl> {
     t("exists_one", 3, false, Box::new(|h| E::Macro("exists_one", b(E::List(vec![h[0].clone(), h[1].clone()])), "x".into(), vec![E::Bin("==", b(h[2].clone()), b(x()))])));
     t("filter", 3, false, Box::new(|h| E::Macro("filter", b(E::List(vec![h[0].clone(), h[1].clone()])), "x".into(), vec![gt0(h[2].clone())])));
     t("map3", 4, false, Box::new(|h| E::Macro("map", b(E::List(vec![h[0].clone(), h[1].clone()])), "x".into(), vec![gt0(h[2].clone()), E::Bin("*", b(x()), b(h[3].clone()))])));
+    // int-valued macro forms, so that macros also appear as inner operands at the second level
+    t("size(map)", 2, true, Box::new(|h| call("size", vec![E::Macro("map", b(E::List(vec![h[0].clone(), li(5)])), "x".into(), vec![E::Bin("+", b(x()), b(h[1].clone()))])])));
+    t("exists?1:0", 2, true, Box::new(|h| E::Cond(b(E::Macro("exists", b(E::List(vec![h[0].clone(), li(5)])), "x".into(), vec![E::Bin("==", b(x()), b(h[1].clone()))])), b(li(1)), b(li(0)))));
+    t("filter[0]", 2, true, Box::new(|h| E::Index(b(E::Macro("filter", b(E::List(vec![li(3), h[0].clone()])), "x".into(), vec![E::Bin(">=", b(x()), b(h[1].clone()))])), b(li(0)))));
     v
 }
 
